@@ -320,7 +320,7 @@ func cmdCheck(args []string) int {
 				fnOK = false
 			}
 		}
-		if fnOK && onlyRe == nil {
+		if fnOK && onlyRe == nil && !*writeLedger {
 			lines = append(lines, fmt.Sprintf("UNDECIDED property=%s ledger obligation %s was not generated", prop, name))
 			undecided = true
 		}
